@@ -1,12 +1,14 @@
 /* rculfhash extended scenario: real src/rculfhash.c under the controlled scheduler with every public operation, explicit resizes,
    an abstract RCU flavor whose synchronize_rcu() really waits for the read-side sections open at its start (schedulable spin), and a
    recording bucket allocator whose freed tables are quarantined (every later hooked access into them is reported as UAF).
-   usage: scen_lfhtx PROG SCHED [init_size [max_buckets [mm [nr_cpus_mask [create_fail_mask]]]]]      mm: o(rder) c(hunk) m(map)
+   usage: scen_lfhtx PROG SCHED [init_size [max_buckets [mm [nr_cpus_mask [create_fail_mask [flags]]]]]]      mm: o(rder) c(hunk) m(map); flags: cds_lfht_new flags
+   (1 = CDS_LFHT_AUTO_RESIZE: lazy resizes are carried out by the library's work-queue thread, which is scheduled like any other thread)
    nr_cpus_mask >= 1 (with -DURCU_VERIF_MIN_PARTITION_PER_THREAD_ORDER=0) makes every resize level use the partitioned multi-thread path;
    create_fail_mask makes chosen pthread_create calls of the run fail with EAGAIN (single-thread fallback for the leftover partitions).
    ops: A<i> add entry i, U<i> add_unique, R<i> add_replace, L<i> lookup (hash,key) of entry i (sets the thread's iterator), N next_duplicate on
    the iterator, X del the iterator's node, x the same followed - when it succeeds - by a grace period and the release of the node (every later access to it is reported), P<i> replace the iterator's node by entry i, T full traversal (first/next), Z<k> resize to 2^k, z<d> resize to d (any count),
-   C count_nodes.  Each operation is one read-side critical section (resize is called outside any). */
+   C count_nodes, Y cds_lfht_destroy (the program must not use the table afterwards; the end-of-run checks are skipped).  Each operation is one read-side critical
+   section (resize and destroy are called outside any). */
 #define _LGPL_SOURCE
 #include <stdbool.h>
 #include <string.h>
@@ -42,11 +44,16 @@ struct ent { struct cds_lfht_node n; int key; int id; };
 #define NE 10
 static const unsigned long EH[NE] = {1,1,1,3,2,3,6,1,5,7};
 static const int EK[NE]           = {10,11,10,30,20,31,60,10,50,70};
-static struct ent E[NE]; static struct cds_lfht *ht;
+static struct ent E[NE]; static struct cds_lfht *ht; static int destroyed;
 static int match(struct cds_lfht_node *n, const void *k){ return ((struct ent*)n)->key==*(const int*)k; }
 static char *prog[MAXTH]; static int nprog;
+static int lflags; static unsigned long g_init, g_maxb; static const struct cds_lfht_mm_type *g_mm;
+static void name_table(void){ vs_region(&ht->size,sizeof ht->size,"size"); vs_region(&ht->resize_target,sizeof ht->resize_target,"target");
+  vs_region(&ht->resize_mutex,sizeof ht->resize_mutex,"rsmutex"); vs_region(ht,sizeof *ht,"ht"); }
 static unsigned long idof(struct cds_lfht_node *n){ return (unsigned long)n; }
 static void body(int t){ struct cds_lfht_iter it; it.node=0; it.next=0; int itkey=0;
+  if(lflags&1){ if(t==0){ vs_call("new",0); struct cds_lfht *h=_cds_lfht_new_with_alloc(g_init,1,g_maxb,lflags,g_mm,&vflavor,&v_alloc,NULL); vs_quiet_begin(); ht=h; name_table(); vs_quiet_end(); CMM_STORE_SHARED(ht,h); vs_ret("new",0); }
+    else while(!CMM_LOAD_SHARED(ht)) caa_cpu_relax(); }
   for(char *p=prog[t]; *p; p++){
 	int i = p[1]-'0';
 	switch(*p){
@@ -63,6 +70,7 @@ static void body(int t){ struct cds_lfht_iter it; it.node=0; it.next=0; int itke
 		cds_lfht_for_each(ht,&ti,x){ if(l<480) l+=sprintf(buf+l,"%d,",((struct ent*)x)->id); } f_unlock(); vs_note("visited %s",buf); vs_ret("trav",0); break; }
 	case 'Z': p++; vs_call("resize",1UL<<i); cds_lfht_resize(ht,1UL<<i); vs_ret("resize",0); break;
 	case 'z': p++; vs_call("resize",(unsigned long)i); cds_lfht_resize(ht,(unsigned long)i); vs_ret("resize",0); break;
+	case 'Y': { vs_call("destroy",0); int r=cds_lfht_destroy(ht,NULL); destroyed=1; vs_ret("destroy",(unsigned long)r); break; }
 	case 'C': { long b,a; unsigned long c; vs_call("count",0); f_lock(); cds_lfht_count_nodes(ht,&b,&c,&a); f_unlock(); vs_ret("count",c); break; }
 	} } }
 int main(int argc,char**argv){
@@ -72,16 +80,18 @@ int main(int argc,char**argv){
   unsigned long init = argc>3 ? strtoul(argv[3],0,0) : 2, maxb = argc>4 ? strtoul(argv[4],0,0) : 8;
   const struct cds_lfht_mm_type *mm = (argc>5 && argv[5][0]=='c') ? &cds_lfht_mm_chunk : (argc>5 && argv[5][0]=='m') ? &cds_lfht_mm_mmap : &cds_lfht_mm_order;
   for(int i=0;i<NE;i++){ E[i].key=EK[i]; E[i].id=i; cds_lfht_node_init(&E[i].n); }
-  ht=_cds_lfht_new_with_alloc(init,1,maxb,0,mm,&vflavor,&v_alloc,NULL);
-  if(!ht){ printf("- new failed\n"); fflush(stdout); _exit(0); }
-  if(argc>6) nr_cpus_mask = atol(argv[6]);
+  lflags = argc>8 ? atoi(argv[8]) : 0; g_init=init; g_maxb=maxb; g_mm=mm;
+  /* with CDS_LFHT_AUTO_RESIZE the table is created by scenario thread 0, so that the work-queue thread the library starts is a scheduled thread */
+  if(!(lflags&1)){ ht=_cds_lfht_new_with_alloc(init,1,maxb,lflags,mm,&vflavor,&v_alloc,NULL);
+    if(!ht){ printf("- new failed\n"); fflush(stdout); _exit(0); } name_table(); }
+  if(argc>6 && atol(argv[6])>0) nr_cpus_mask = atol(argv[6]);
   if(argc>7) vs_create_fail_mask = strtoul(argv[7],0,0);
-  vs_region(&ht->size,sizeof ht->size,"size"); vs_region(&ht->resize_target,sizeof ht->resize_target,"target"); vs_region(E,sizeof E,"E"); vs_region(gen,sizeof gen,"gen");
-  vs_region(&ht->resize_mutex,sizeof ht->resize_mutex,"rsmutex"); vs_region(ht,sizeof *ht,"ht");
+  vs_region(E,sizeof E,"E"); vs_region(gen,sizeof gen,"gen");
   printf("- init size %lu max %lu\n", init, maxb);
   vs_strict=0;
   for(int i=0;i<nprog;i++) vs_spawn(body);
   vs_run(argv[2]);
+  if(destroyed){ printf("- destroyed\n"); fflush(stdout); _exit(0); }
   { long b,a; unsigned long c; cds_lfht_count_nodes(ht,&b,&c,&a); printf("- final count %lu size %lu\n",c,ht->size); }
   { struct cds_lfht_node *n = bucket_at(ht,0); printf("- chain");
     while(n){ unsigned long w=(unsigned long)n->next; if((char*)n>=(char*)E && (char*)n<(char*)(E+NE)) printf(" %d:%lu:%lx", ((struct ent*)n)->id, w&7, n->reverse_hash); else printf(" b:%lu:%lx", w&7, n->reverse_hash);
